@@ -52,7 +52,8 @@ H('C09', 'All histories of table/column/view/section/field/summary actions: afte
 H('C10', 'All histories whose last bundle makes rows disappear: no Ref/RefList data cell of any user '
          'or metadata table may still hold a removed id; RefLists keep the other ids in order.')
 H('C11', 'All histories over the two-way reference world: every reverse-linked column pair is '
-         'symmetric after each successful bundle; rejected bundles leave the dump unchanged.')
+         'symmetric after each successful bundle (a cell naming a missing row counts as asymmetric); rejected '
+         'bundles leave the dump unchanged; histories continue past rejected bundles.')
 H('C12', 'All histories over the summary world: each summary table is compared with a reference '
          'group-by of its source after every successful bundle.')
 H('C13', 'All histories over the lookup world: 18 lookup specs x lookupRecords/lookupOne compared with '
@@ -66,13 +67,15 @@ E('C34', 'Every bundled zone x every transition instant x probe offsets: timesta
 E('C35', 'Intervals x slot lists x starts x counts x ends vs a brute-force occurrence generator; '
          'malformed strings must raise ValueError.')
 E('C36', 'Every indentation sequence of length <= 5/6 over 4 levels x every removal subset: valid '
-         'tree, never deeper, only violating pages changed.')
+         'tree, never deeper, only violating pages changed; plus, through the engine, 4 pages in all 24 '
+         'page orders x every valid tree x every removal set (BulkRemoveRecord on _grist_Pages).')
 E('C38', 'Complete entry-by-entry differential of the single configuration: schema.ts vs generator '
          'output/schema.py and gristTypes.ts defaults vs usertypes defaults.',
   tech='complete differential over one configuration (degenerate space)', cat='other')
 
 H('C15', 'All histories over the trigger world (every trigger formula counts its own recalculations): '
-         'three-valued reference model MUST/MUST-NOT/explicit per (row, trigger column, bundle).')
+         'three-valued reference model MUST/MUST-NOT/explicit per (row, trigger column, bundle); undo then '
+         'redo of every bundle leaves every trigger cell at its recorded value.')
 E('C22', '19 type objects x a catalogue of 352 adversarial values (plus list/tuple wrappings; thorough: '
          'all two-step chains): convert never raises, result is right-type / same error / alt-text, '
          'and converting again is the identity.')
@@ -89,12 +92,17 @@ E('C41', 'Tables of <= 3 rows x 2 Any columns over hashable and unhashable value
 
 E('C20', 'relabeling.prepare_inserts on every sorted list of <= 4 positions x every batch of <= 3 '
          'requests over an adversarial float alphabet, plus insertion chains (60/400 steps) and insertion '
-         'trees from adjacent-float clusters; engine-level distinctness of position columns is a monitor '
-         'of the history explorer (see C20 in mc/monitors2.Positions, run inside this check).')
+         'trees from adjacent-float clusters, and every alignment of the left neighbour in a block of 16 '
+         'floats; engine part in the same check: history explorer (incl. world W_pos: inserts and moves '
+         'into adjacent floats behind a RenameTable, origins L and I) with monitors for distinct '
+         'positions, preserved order of rows not placed, and placement of added/moved rows.')
 E('C21', 'pick_col_ident/pick_table_ident/pick_col_ident_list on every string of length <= 3/4 over 9 '
-         'characters, exotic Unicode, all keywords, adaptive avoid-set trees and lists of <= 3 names.')
+         'characters, exotic Unicode, all keywords, adaptive avoid-set trees and lists of <= 3 names; engine '
+         'part: histories of depth 2 over world W_names (adversarial names through AddTable/RenameTable/'
+         'AddColumn/RenameColumn/bulk metadata renames, summary tables with coinciding encoded names).')
 E('C24', 'Catalogue of 132 adversarial values x container wrappers x 4 routes driven through the real '
-         'main.run(Sandbox) transport: every reply frame is DATA and unmarshals, encode(decode(x)) == x.')
+         'main.run(Sandbox) transport (plus typed formula columns read through an Any column): every reply '
+         'frame is DATA and unmarshals, encode(decode(x)) == x.')
 E('C25', 'Starting versions 0..47 x 3 document worlds x single-cell deviations (pairs in thorough) of '
          'every Text cell migrations parse; actions applied by the independent interpreter must reach '
          'the current schema.')
@@ -108,7 +116,8 @@ CHECKS['C04'] = ('fault_enumeration', 'fault enumeration: every crossing of ever
   'follow-up bundles must be exactly those of an engine that never saw the failure.', '§2 C04', HIST_NOTE)
 E('C26', 'All bundles of <= 2/3 actions over a temp-id alphabet (adds with ids None/-1/-2, updates, removes, '
          'Ref/RefList values with known and unknown negative ids) on two tables referencing each other, '
-         'from 2 base states, vs a reference resolution of temporary ids; unknown ids must leave no trace.')
+         'from 2 base states, plus a state with a two-way linked Ref column (all bundles of <= 3 actions), '
+         'vs a reference resolution of temporary ids; unknown ids must leave no trace.')
 E('C27', 'AddRecord/BulkAddRecord/ReplaceTableData x every id list of length <= 2/3 over {None,-1,-2,0,1,2,5,'
          '10^6,10^6+1,True} x 5 table states; returned ids == new rows, distinct, fresh; invalid requests '
          'rejected with the dump unchanged.')
@@ -121,7 +130,8 @@ H('C06', 'For every (state, bundle) and for the full recalculation of every base
          'cyclic 2-/3-column documents: the run is repeated under every schedule that deviates from '
          'the default work-list order at one call of _make_sorted_work_items (all permutations of the '
          'dirty nodes up to 4/6 per class, lookups kept first); dump and multiset of stored actions '
-         'must be identical, no schedule may raise.',
+         'must be identical, no schedule may raise; when only the dependency graph differs, every '
+         'follow-up bundle is chained behind both runs and compared.',
   tech='stateless schedule enumeration (CHESS-style, deviation-bounded) of the engine work list')
 H('C18', 'Every dependency graph over 3 (quick) / 4 (thorough) formula columns x {in-row, through a '
          'self-reference to the other row}: terminates, cells on a cycle hold CircularRefError, cells '
